@@ -426,3 +426,17 @@ m("x7-enum-mark-index", "C05,C16", VM, _ELT_FROM_ORIG, _elt_from(step="copied = 
 m("x7-enum-mark-buf-len", "C05,C16", VM, _ELT_FROM_ORIG, _elt_from(mark="buf.len() * size_of::<T>()"), "?")
 m("x7-enum-mark-elements", "C05,C16", VM, _ELT_FROM_ORIG, _elt_from(mark="copied"), "?")
 m("x7-enum-mark-skipped", "C05,C16", VM, _ELT_FROM_ORIG, _elt_from(pre="if i >= 3 { break; }"), "?")
+
+# hand-written impls in place of a derive (accepted when they mean what the derive means, rules/derives.py), each with one defect
+AT = "src/atomic.rs"
+EN = "src/endian.rs"
+m("x7-manual-clone-fresh-pair", "C11", AT, "#[derive(Clone, Debug)]\npub struct GuestMemoryAtomic<M: GuestMemory> {",
+  "impl<M: GuestMemory + Clone> Clone for GuestMemoryAtomic<M> {\n    fn clone(&self) -> Self {\n        GuestMemoryAtomic { inner: Arc::new((ArcSwap::new(self.inner.0.load_full()), Mutex::new(()))) }\n    }\n}\n#[derive(Debug)]\npub struct GuestMemoryAtomic<M: GuestMemory> {", "?")
+m("x7-manual-ord-reversed", "C19", GM, "#[derive(Clone, Copy, Debug, Eq, PartialEq, Ord, PartialOrd)]\npub struct GuestAddress(pub u64);",
+  "impl PartialOrd for GuestAddress {\n    fn partial_cmp(&self, other: &Self) -> Option<std::cmp::Ordering> {\n        Some(self.cmp(other))\n    }\n}\nimpl Ord for GuestAddress {\n    fn cmp(&self, other: &Self) -> std::cmp::Ordering {\n        other.0.cmp(&self.0)\n    }\n}\n#[derive(Clone, Copy, Debug, Eq, PartialEq)]\npub struct GuestAddress(pub u64);", "?")
+m("x7-manual-partial-ord-low-bits", "C19", GM, "#[derive(Clone, Copy, Debug, Eq, PartialEq, Ord, PartialOrd)]\npub struct MemoryRegionAddress(pub u64);",
+  "impl PartialOrd for MemoryRegionAddress {\n    fn partial_cmp(&self, other: &Self) -> Option<std::cmp::Ordering> {\n        (self.0 as u32).partial_cmp(&(other.0 as u32))\n    }\n}\n#[derive(Clone, Copy, Debug, Eq, PartialEq, Ord)]\npub struct MemoryRegionAddress(pub u64);", "?")
+m("x7-manual-mmap-clone-reversed", "C10", MM, "#[derive(Clone, Debug, Default)]\npub struct GuestMemoryMmap<B = ()> {",
+  "impl<B: Clone> Clone for GuestMemoryMmap<B> {\n    fn clone(&self) -> Self {\n        GuestMemoryMmap { regions: self.regions.iter().rev().cloned().collect() }\n    }\n}\n#[derive(Debug, Default)]\npub struct GuestMemoryMmap<B = ()> {", "?")
+m("x7-manual-endian-default-one", "C20", EN, "        #[derive(Copy, Clone, Eq, PartialEq, Debug, Default)]\n        #[repr(transparent)]\n        pub struct $new_type($old_type);",
+  "        #[derive(Copy, Clone, Eq, PartialEq, Debug)]\n        #[repr(transparent)]\n        pub struct $new_type($old_type);\n        impl Default for $new_type {\n            fn default() -> $new_type {\n                $new_type(1)\n            }\n        }", "?")
